@@ -14,7 +14,7 @@
    modelled for secrets without a backslash (then the template text is literal);
    a secret containing a backslash is outside the model. *)
 Require Import OV.Base.Bytes OV.Base.PyInt OV.Base.Str OV.Base.Regex OV.Base.C04_Tmpl.
-Require Import OV.Gen.C04_Sanitize OV.Gen.C04_Concrete.
+Require Import OV.Gen.Unicode OV.Gen.C04_Sanitize OV.Gen.C04_Concrete.
 Open Scope N_scope.
 
 (* str.lower(): Base/Str.py_lower with a fast path for ASCII (Proofs/C04.v: lower = py_lower) *)
@@ -49,3 +49,22 @@ Definition matches_somewhere (r : re) (m : str) : bool :=
 Definition zone_K12_at (m : str) (e : entry) : bool :=
   occursb (fst e) (lower m) && existsb (fun r => matches_somewhere r m) (snd (snd (snd e))).
 Definition zone_K12 (m : str) : bool := existsb (zone_K12_at m) gen_concrete.
+
+(* K14 zone, a predicate on the INPUT message alone: `--K2<digits> <flag-like value> <another word>`
+   where an earlier key K1 of the list is a proper suffix of K2 (then K1's `key --flag value`
+   pattern takes the value for the flag and masks the next word too) *)
+Definition z14_flag : cset := match gen_tp2_9 [] with
+  | Seq (Group _ (Seq _ (Seq _ (Seq _ (Seq _ (Seq (Rep cs _ _) _)))))) _ => cs | _ => [] end.
+Definition z14_nonspace : cset := match gen_tp2_9 [] with Seq _ (Seq (Rep cs _ _) _) => cs | _ => [] end.
+Definition zone_K14_re (k2 : str) : re :=
+  Seq (Rep [(45, 45)] 2 (Some 2%nat)) (keyseq gen_ci_table k2 (Seq (Rep [(48, 57)] 0 None) (Seq (Rep py_space 1 None)
+    (Seq (Chr [(45, 45)]) (Seq (Rep [(45, 45)] 0 (Some 1%nat)) (Seq (Rep z14_flag 1 None) (Seq (Rep py_space 1 None) (Chr z14_nonspace)))))))).
+Definition proper_suffix (k1 k2 : str) : bool :=
+  Nat.ltb (length k1) (length k2) && beq (skipn (length k2 - length k1) k2) k1.
+Fixpoint k14_keys (ks : list str) : list str :=      (* keys that have an EARLIER key as proper suffix *)
+  match ks with
+  | [] => []
+  | k :: t => filter (proper_suffix k) t ++ k14_keys t
+  end.
+Definition zone_K14 (m : str) : bool :=
+  existsb (fun k2 => matches_somewhere (zone_K14_re k2) m) (k14_keys gen_keys).
